@@ -182,7 +182,7 @@ func decodeInto(t *layers.TCP, data []byte) decRes {
 	var err error
 	rep, pan := lib.Protect(func() string { err = t.DecodeFromBytes(data, f); return "" })
 	if pan {
-		return decRes{t: t, pan: rep, site: lib.LastPanicSite}
+		return decRes{t: t, pan: canonPanic(rep), site: lib.LastPanicSite}
 	}
 	return decRes{t: t, err: err, trunc: f.t}
 }
@@ -192,6 +192,15 @@ func (r decRes) String() string {
 		return r.pan
 	}
 	return showDec(r.err, r.trunc, r.t)
+}
+
+// index and slice bounds panics are one kind (`oob`): Go leaves their relative order inside one
+// expression to the compiler
+func canonPanic(rep string) string {
+	if rep == "panic index" || rep == "panic slice" {
+		return "panic oob"
+	}
+	return rep
 }
 
 func tcpSite(site string) bool { return strings.HasPrefix(site, "layers/tcp.go") }
@@ -336,7 +345,7 @@ func serialize(t *layers.TCP, hist string, fix, csum bool, payload []byte) serRe
 		return ""
 	})
 	if pan {
-		return serRes{pan: rep, site: lib.LastPanicSite}
+		return serRes{pan: canonPanic(rep), site: lib.LastPanicSite}
 	}
 	if err != nil {
 		return serRes{err: err}
@@ -574,7 +583,7 @@ func exec1(a []string) string {
 		if pan {
 			lib.Finding("C19", "ltcp:panic:"+lib.LastPanicSite, "decodeTCP "+rep+" on "+lib.Hex(data))
 			cur, curDecoded = nil, false
-			return rep
+			return canonPanic(rep)
 		}
 		if len(tr.added) != 1 {
 			return fmt.Sprintf("ok add=%d", len(tr.added))
@@ -606,7 +615,7 @@ func exec1(a []string) string {
 			if pan {
 				lib.Finding("C01", "ltcp:render-panic:"+lib.LastPanicSite, "TCPOption.String() "+rep+" on option "+showOpt(o))
 				lib.Stat("str:panic")
-				return rep
+				return canonPanic(rep)
 			}
 			if o.OptionType == 30 && o.OptionMultipath == 3 && o.OptionMPTCPAddAddr != nil {
 				// the net.IP text is outside the model
